@@ -378,6 +378,47 @@ class C13:
             elif op != "append" and post != pre and post != want and not (set(post) <= set(pre) and set(want) <= set(post)):
                 rec.violation(f"sqlite/{op}/kill-at-{sc}/neither-old-nor-new-rows", case, {"k": k, "pre": len(pre), "want": len(want), "post": len(post)})
 
+        def judge(how, detail):
+            try:
+                ok, post = rows()
+            except sqlite3.DatabaseError as e:
+                rec.violation(f"sqlite/{op}/{how}/database-unreadable", case, dict(detail, err=str(e)[:80]))
+                return
+            if ok != "ok":
+                rec.violation(f"sqlite/{op}/{how}/integrity-check-fails", case, dict(detail, msg=ok[:80]))
+            elif op == "append" and [x for x in post if x[1] < 2e9] != pre:
+                rec.violation(f"sqlite/{op}/{how}/committed-rows-lost", case, detail)
+            elif op != "append" and post != pre and post != want and not (set(post) <= set(pre) and set(want) <= set(post)):
+                rec.violation(f"sqlite/{op}/{how}/neither-old-nor-new-rows", case, dict(detail, pre=len(pre), want=len(want), post=len(post)))
+
+        # failing calls: the k-th write-class syscall returns ENOSPC / EIO instead of being killed
+        wpoints = [(sc, k) for sc, k in points if sc in ("pwrite64", "write", "fsync", "fdatasync", "ftruncate")]
+        for sc, k in wpoints[: max(2, case["maxpoints"] // 2)]:
+            err = rng.choice(["ENOSPC", "EIO"])
+            fresh()
+            subprocess.run(["strace", "-f", "-o", "/dev/null", "-e", f"trace={sc}", "-e", f"inject={sc}:error={err}:when={k}"] + base, env=env, capture_output=True, timeout=300)
+            rec.count("sqlite_failing_call_runs")
+            rec.count("faults_fired")
+            rec.count("failing_calls")
+            rec.case(nontrivial=("sqlite", op, sc, k, err))
+            judge(f"{err}-at-{sc}", {"k": k})
+        # the file system refuses to let any file grow beyond N bytes (database, WAL and journal alike)
+        import resource
+        import signal as _sig
+
+        size = os.path.getsize(fn) if os.path.exists(fn) else 8192
+        for lim in sorted({0, 4096, size, size + 1024, size + 4096, 2 * size}):
+            def limit(lim=lim):
+                _sig.signal(_sig.SIGXFSZ, _sig.SIG_IGN)
+                resource.setrlimit(resource.RLIMIT_FSIZE, (lim, lim))
+
+            fresh()
+            subprocess.run(base, env=env, capture_output=True, timeout=300, preexec_fn=limit)
+            rec.count("sqlite_file_size_limit_runs")
+            rec.count("faults_fired")
+            rec.case(nontrivial=("sqlite", op, "fsize", lim // 1024))
+            judge("file-size-limit", {"limit": lim})
+
     def run_shard(self, sh, rec):
         self._setup()
         rng = random.Random(f"{sh['seed']}/C13/{sh['index']}")
